@@ -19,6 +19,7 @@ KEYTYPES = {
     "identifier": refdt.identifier,
     "ipaddr-or-hostname": refdt.ipaddr_or_hostname,
     "zcv.dt.basickey": refdt.basic_key,
+    "zcv.dt.Methods.basickey": refdt.basic_key,
 }
 
 SEMANTIC_RULES = (
@@ -278,7 +279,7 @@ def tag_value(v):
 def apply_section_dt(dt, value):
     if dt in (None, "null"):
         return value
-    if dt in ("zcv.dt.wrap", "zcv.dtalt.wrap2"):
+    if dt in ("zcv.dt.wrap", "zcv.dtalt.wrap2", "zcv.dt.Methods.wrap"):
         return {"W": value}
     if dt in ("zcv.dt.wrap2", "zcv.dtalt.wrap"):
         return {"W2": value}
